@@ -17,7 +17,8 @@ RULE = ("generated stylesheets (1-25 uniquely-selected rules; with/without backg
         "values; custom properties in :root/html: single-use, chained, with fallback, undefined with/without fallback, shared by rules on the same and on "
         "different backgrounds; !important; repeated and upper-case declarations; colour declared directly in :root/html; nesting in @media/@supports to "
         "depth 4; unrelated at-rules and comments) x --mode {0,1,2} x --premium x --default-bg {absent, keyword, hex, rgb()}; each sheet mixes readable, "
-        "fixable and hard pairs. Run through the real command (in-process with a recording ColorPair, plus real subprocess runs). Oracle (cssmodel + "
+        "fixable and hard pairs. Directory runs also hold entries the tool cannot process (non-UTF-8 bytes, a directory named *.css) among the good sheets. "
+        "Run through the real command (in-process with a recording ColorPair, plus real subprocess runs). Oracle (cssmodel + "
         "csscolor + wcag + the Python API): P1 carded rule's effective colour in the written file == card's after colour; P2 == API result with success; "
         "P3 ratio >= target; P4 uncarded+unlisted rules meet the target and their number is the 'already readable' counter; P5 the three counters sum to "
         "the number of rules with a text colour, cards/list/counters agree; P6 listed rules' declarations unchanged. Non-trivial = sheet with >= 1 card; "
